@@ -809,7 +809,7 @@ def m_deque(I, ctx, args, kwargs, node):
     return ctx.alloc('deque', to_seq(I, ctx, args[0]) if args else ())
 
 
-@model(builtins.set)
+@model(builtins.set, builtins.frozenset)
 def m_set(I, ctx, args, kwargs, node):
     return ctx.alloc('set', to_seq(I, ctx, args[0]) if args else ())
 
@@ -1394,6 +1394,20 @@ def abstract_from_game(I, ctx, ht, args, node, or_none, kwargs=None):
     if key not in I.memo_uf:
         k = len(I.memo_uf)
         I.memo_uf[key] = (z3.Bool(f'hand{k}?valid'), z3.Int(f'hand{k}.strength'))
+        # the result is a FUNCTION of the cards passed: two calls whose card sequences are equal (however they were computed:
+        # filter(None, xs), a comprehension, ...) give the same hand -- congruence axioms between the applications
+        if not hasattr(I, 'memo_uf_args'):
+            I.memo_uf_args = {}
+        v1, s1 = I.memo_uf[key]
+        for key2, seqs2 in I.memo_uf_args.items():
+            if key2[0] != ht.k or len(seqs2) != len(seqs):
+                continue
+            same = And_(*[seq_eq(I, ctx, a, b) for a, b in zip(seqs, seqs2)])
+            if concrete_bool(same) is False:
+                continue
+            v2, s2 = I.memo_uf[key2]
+            I.axiom(Implies_(same, z3.And(v1 == v2, s1 == s2)))
+        I.memo_uf_args[key] = seqs
     valid, strength = I.memo_uf[key]
     hand = SymObj(AbstractHand, {'strength': strength, 'type': ht.k})
     if or_none:
